@@ -523,21 +523,19 @@ Fixpoint zip_ok (f : nat -> status -> bool) (ids : list nat) (pre : list status)
   | _, _ => false
   end.
 
-(* a do start (fresh or re-run) saw every wait task Done; a fresh undo start saw every halt task ready; a re-run of
-   an undo handler saw every halt task ready, except possibly halt tasks WITHOUT undo handler sitting in Undo (they
-   have nothing to undo and flip back to Done in the same or the next Ensure pass; see notes/C02.md) *)
-Definition start_ok (g : list tdesc) (r : start_rec) : bool :=
+(* every do start (fresh or re-run) saw every wait task Done; every undo start (fresh or re-run) saw every halt task
+   ready; the gate was open. No exception: a re-run that sees a handler-less halt task in Undo is reported (known
+   finding undo-rerun-sees-handlerless-dependent-in-undo, classified in checks/c02.py). *)
+Definition start_ok (r : start_rec) : bool :=
   sr_gate r
-  && (if sr_undo r
-      then zip_ok (fun h x => ready x || (negb (sr_fresh r) && negb (has_undo_g g h) && seqb x Undo))
-                  (halts_of g (sr_t r)) (sr_pre r)
-      else forallb (fun x => seqb x Done) (sr_pre r)).
+  && (if sr_undo r then forallb ready (sr_pre r) else forallb (fun x => seqb x Done) (sr_pre r)).
 
 Definition monitor_fail02 (c : case) : bool :=
   let 'Case g evs := c in
-  existsb (fun eo : event * obs => negb (forallb (start_ok g) (o_starts (snd eo))) || negb (o_hook_ok (snd eo))) evs.
+  existsb (fun eo : event * obs => negb (forallb start_ok (o_starts (snd eo))) || negb (o_hook_ok (snd eo))) evs.
 
-(* C01.  (a) undo starts only when every task that waited on it is ready (as C02);
+(* C01.  (a) a FRESH undo start happens only when every task that waited on it is ready (re-runs of undo handlers
+       are checked, strictly, by the C02 monitor);
    (b) an abort (handler error or Change.Abort) changes statuses only by Do->Hold, Doing->Abort, Done->Undo,
        Wait->Hold/Abort/Undo, plus failing task -> Error, and only inside the closure R of the aborted lanes
        under halt edges and lane membership; every task with a lane in the aborted lanes none of whose lanes is
@@ -584,6 +582,28 @@ Fixpoint zip3_forall (f : nat -> status -> status -> bool) (i : nat) (a b : list
   | _, _ => false
   end.
 
+(* the healthy-lane exemption of ONE abortLanes call, stated on the statuses before the call: a task w voices an
+   opinion on lane x when x comes, in w's own lane list, before any lane of the kill list; a lane task u is spared when
+   some lane of u outside the kill list has at least one opinion and only live (Do/Doing/Done) ones. A task in Wait
+   counts by the status it waits for, which is not observed: any such opinion excuses (never a false alarm). *)
+Fixpoint opines (kill : list nat) (x : nat) (ls : list nat) : bool :=
+  match ls with
+  | [] => false
+  | y :: r => if memn y kill then false else if Nat.eqb y x then true else opines kill x r
+  end.
+Definition lane_task (g : list tdesc) (kill : list nat) (u : nat) : bool := inter_b (lanes_g g u) kill.
+Definition live_st (x : status) : bool := match x with Do | Doing | Done => true | _ => false end.
+Definition spared_spec (g : list tdesc) (sts : list status) (kill : list nat) (u : nat) : bool :=
+  existsb (fun x =>
+             if memn x kill then false
+             else let ops := filter (fun w => opines kill x (lanes_g g w)) (seq 0 (length g)) in
+                  if existsb (fun w => seqb (nth w sts Hold) Wait) ops then true
+                  else match ops with
+                       | [] => false
+                       | _ => forallb (fun w => live_st (nth w sts Hold)) ops
+                       end)
+          (lanes_g g u).
+
 (* statuses before/after an abort issued for [lanes] (handler error of task ft: Some ft) or for everything *)
 Definition abort_ok (g : list tdesc) (ft : option nat) (before after : list status) : bool :=
   let ids := seq 0 (length g) in
@@ -598,6 +618,9 @@ Definition abort_ok (g : list tdesc) (ft : option nat) (before after : list stat
     | Some t => if Nat.eqb i t then seqb n Error
                 else (if memn i R then abort_map_ok o n else seqb o n)
                      && (if memn i R' then negb (seqb n Do || seqb n Doing || seqb n Done) else true)
+                     (* a task of the failed task's lanes that the exemption does not spare is aborted *)
+                     && (if lane_task g lanes i then (if spared_spec g before lanes i then true else negb (live_st n))
+                         else true)
     | None => abort_map_ok o n && (seqb o Wait || negb (seqb n Do || seqb n Doing || seqb n Done))
     end) 0 before after.
 
@@ -619,7 +642,9 @@ Definition last_obs (evs : list (event * obs)) : option obs :=
   match rev evs with [] => None | (_, o) :: _ => Some o end.
 
 (* (c) settled (every task ready, nothing running) after at least one handler failure: the change is in Error and
-   ready; every task with an undo handler in the lower closure of a failed task is not left Done; and, when no
+   ready; every task with an undo handler in the lower closure of a failed task is not left Done; every task with an
+   undo handler that shares a lane with a failed task and is still Done was spared by the healthy-lane exemption
+   (spared_scan); and, when no
    user abort was issued, every task outside the upper closures of all failed tasks completed (Done). *)
 Definition is_uabort (e : event) : bool := match e with UAbort => true | _ => false end.
 
@@ -638,6 +663,22 @@ Fixpoint waits_well_typed (prev : list status) (evs : list (event * obs)) : bool
     end && waits_well_typed (o_st o) r
   end.
 
+(* settled histories: a task with undo handler that is still Done although it shares a lane with a failed task must
+   have been spared, legitimately, by the exemption at the abort that failure triggered *)
+Fixpoint spared_scan (g : list tdesc) (final prev : list status) (evs : list (event * obs)) : bool :=
+  match evs with
+  | [] => true
+  | (e, o) :: r =>
+    match e with
+    | Finish t OErr =>
+      if o_panic o then true
+      else forallb (fun u => if has_undo_g g u && lane_task g (lanes_g g t) u && seqb (nth u final Hold) Done
+                                && negb (Nat.eqb u t)
+                             then spared_spec g prev (lanes_g g t) u else true) (seq 0 (length g))
+    | _ => true
+    end && spared_scan g final (o_st o) r
+  end.
+
 Definition settle_ok (g : list tdesc) (evs : list (event * obs)) : bool :=
   match last_obs evs with
   | None => true
@@ -651,6 +692,7 @@ Definition settle_ok (g : list tdesc) (evs : list (event * obs)) : bool :=
       seqb (o_cst o) Error && o_ready o
       && forallb (fun t => forallb (fun u => negb (has_undo_g g u && seqb (nth u (o_st o) Hold) Done))
                                    (lower_closure g [] (lanes_g g t))) fl
+      && spared_scan g (o_st o) (map (fun _ => Do) g) evs
       && (existsb (fun eo => is_uabort (fst eo)) evs
           || forallb (fun u => memn u (flat_map (fun t => upper_closure g [] (lanes_g g t)) fl)
                                || seqb (nth u (o_st o) Hold) Done) (seq 0 (length g)))
@@ -660,7 +702,7 @@ Definition settle_ok (g : list tdesc) (evs : list (event * obs)) : bool :=
 Definition monitor_fail01 (c : case) : bool :=
   let 'Case g evs := c in
   negb (forallb (fun eo : event * obs =>
-                   forallb (fun r : start_rec => if sr_undo r then start_ok g r else true)
+                   forallb (fun r : start_rec => if sr_undo r && sr_fresh r then forallb ready (sr_pre r) else true)
                            (o_starts (snd eo))) evs)
   || negb (abort_scan g (map (fun _ => Do) g) evs)
   || negb (settle_ok g evs).
